@@ -1239,3 +1239,30 @@ Theorem rel_struct_cases le is64 mips rela :
   if is64 && mips then (if rela then gen_Elf_Rela_mips64 le else gen_Elf_Rel_mips64 le)
   else (if rela then gen_Elf_Rela le is64 else gen_Elf_Rel le is64).
 Proof. reflexivity. Qed.
+
+(* ------------------------------------------------------------------ every section header is looked at *)
+(* a file with n >= 1 section headers, its count recorded as the gABI says (incl. the escape for
+   n >= 0xff00): iter_sections visits the whole table, so a relocation section is found wherever it is *)
+Theorem sections_all_visible e_shoff table :
+  e_shoff <> 0 -> 1 <= zlen table ->
+  s_size (hd (mkSec [] 0 0 0 0 0) table) = snd (shnum_fields (zlen table)) ->
+  iter_sections e_shoff (fst (shnum_fields (zlen table))) table = table.
+Proof.
+  intros Hoff Hn Hs. unfold iter_sections, num_sections.
+  destruct (Z.eqb_spec e_shoff 0) as [E|_]; [contradiction|].
+  destruct table as [|s0 r]; [unfold zlen in Hn; cbn in Hn; lia|].
+  cbn [hd] in Hs. unfold shnum_fields in *.
+  destruct (Z.ltb_spec (zlen (s0 :: r)) SHN_LORESERVE) as [Hlt|Hge]; cbn [fst snd] in *.
+  - destruct (Z.eqb_spec (zlen (s0 :: r)) 0) as [E|_]; [lia|].
+    rewrite Z.leb_refl. reflexivity.
+  - cbn [Z.eqb]. rewrite Hs, Z.leb_refl. reflexivity.
+Qed.
+
+Theorem read_dwarf_file_refines le is64 em img e_shoff table section flag :
+  e_shoff <> 0 -> 1 <= zlen table ->
+  s_size (hd (mkSec [] 0 0 0 0 0) table) = snd (shnum_fields (zlen table)) ->
+  read_dwarf_section_file le is64 em img e_shoff (fst (shnum_fields (zlen table))) table section flag
+  = read_dwarf_section le is64 em img table section flag.
+Proof.
+  intros H1 H2 H3. unfold read_dwarf_section_file. rewrite sections_all_visible by assumption. reflexivity.
+Qed.
